@@ -174,6 +174,14 @@ def starred_annotation_matcher(rec, params):
     return _parse_failure(rec) and re.match(r"^(async )?def ", line) is not None and re.search(r"(: |-> )\*", line) is not None
 
 
+def constant_attribute_pattern_matcher(rec, params):
+    """(match x (. None m) y): a value pattern whose dotted name starts at a constant is accepted by compile() and printed
+    as `case None.m:`, which the parser rejects (a value pattern must start with a name)"""
+    import re
+    line = _bad_line(rec)
+    return _parse_failure(rec) and line.startswith("case ") and re.search(r"(?<![\w.])(None|True|False)\.\w", line) is not None
+
+
 def import_dot_matcher(rec, params):
     import re
     return _parse_failure(rec) and re.match(r"^import \.+( as \w+)?(, .*)?$", _bad_line(rec)) is not None
@@ -440,6 +448,7 @@ def run(chk):
     chk.matchers["c14_class_kwd_unmangled"] = class_kwd_unmangled_matcher
     chk.matchers["c14_constant_name"] = constant_name_matcher
     chk.matchers["c14_import_dot"] = import_dot_matcher
+    chk.matchers["c14_constant_attribute_pattern"] = constant_attribute_pattern_matcher
     chk.matchers["c14_starred_annotation"] = starred_annotation_matcher
     chk.matchers["c14_negative_imaginary"] = negative_imaginary_matcher
     chk.matchers["c14_except_without_type"] = except_without_type_matcher
